@@ -31,7 +31,7 @@ from ..lib.evidence import Report, machinery_failure
 
 common.check_repo_import()
 import jsonargparse  # noqa: E402
-from jsonargparse import ActionConfigFile, ArgumentError, ArgumentParser, Namespace  # noqa: E402
+from jsonargparse import ActionConfigFile, ArgumentError, ArgumentParser, Namespace, lazy_instance  # noqa: E402
 
 PID = "C14"
 WORKERS = int(os.environ.get("VERIF_TLC_WORKERS", "16"))
@@ -259,27 +259,87 @@ def alpha_obj(v):
 
 
 REJ = {"k": "rej"}
+NONE = {"k": "none"}
 
 
-def execute(fam, T, items, flavour, scratch):
+def make_default(dflt, mod, flavour):
+    """the default of --x: lazy_instance(C, **init_args) or the dict form (class defaults only; factories as dict)"""
+    d = dflt["d"]
+    cref = d["class_path"]
+    ia = {} if "init_args" not in d else {n: to_json(x, mod.__name__) for n, x in d["init_args"]["d"].items()}
+    obj = getattr(mod, cref["n"], None)
+    if (flavour & 8) or not isinstance(obj, type) or cref["m"] != "M":
+        out = {"class_path": ref_text(cref, mod.__name__)}
+        if ia:
+            out["init_args"] = ia
+        return out, f"default={out!r}"
+    return lazy_instance(obj, **ia), f"default=lazy_instance({cref['n']}, **{ia!r})"
+
+
+def execute(fam, T, items, flavour, scratch, dflt=None, chan="argv"):
     mod = load_family(fam, scratch)
     modname = mod.__name__
-    argv = render(items, modname, flavour, scratch, f"{os.getpid()}")
-    p = ArgumentParser(exit_on_error=False)
+    has_default = dflt is not None and dflt.get("k") != "none"
+    first_by_channel = chan != "argv" and len(items) > 0
+    argv = render(items[1:] if first_by_channel else items, modname, flavour, scratch, f"{os.getpid()}")
+    pkw = {}
+    how = "parse_args"
+    text = ""
+    if first_by_channel:
+        v0 = items[0]["v"]
+        if chan == "dcf":
+            path = os.path.join(scratch, f"dcf_{os.getpid()}.json")
+            with open(path, "w") as f:
+                f.write(json.dumps({"x": to_json(v0, modname)}))
+            pkw["default_config_files"] = [path]
+        elif chan == "env":
+            pkw.update(default_env=True, env_prefix="APP")
+            text = to_text(v0, modname)
+            how = "parse_env" if not argv else "parse_args+environ"
+        elif chan == "string":
+            text = json.dumps({"x": to_json(v0, modname)})
+            how = "parse_string"
+        else:
+            raise ValueError(chan)
+    p = ArgumentParser(exit_on_error=False, **pkw)
     p.add_argument("--cfg", action=ActionConfigFile)
+    akw = {}
+    dtxt = ""
+    if has_default:
+        akw["default"], dtxt = make_default(dflt, mod, flavour)
     if flavour & 1:
-        p.add_subclass_arguments(getattr(mod, T), "x")
+        p.add_subclass_arguments(getattr(mod, T), "x", **akw)
     else:
-        p.add_argument("--x", type=getattr(mod, T))
+        p.add_argument("--x", type=getattr(mod, T), **akw)
     mod.LOG.clear()
     obs = {"ok": False, "v": REJ, "inst": "skip", "log": [], "root": 0, "rtype": ""}
     err = ""
     buf = io.StringIO()
-    decl = "add_subclass_arguments(T, 'x')" if flavour & 1 else "add_argument('--x', type=T)"
-    py = f"# module {modname}:\n{family_source(fam)}\n# p = ArgumentParser(exit_on_error=False); p.add_argument('--cfg', action=ActionConfigFile); p.{decl}  (T = {T})\n# cfg = p.parse_args({argv!r}); init = p.instantiate_classes(cfg)"
+    decl = f"add_subclass_arguments(T, 'x'{', ' + dtxt if dtxt else ''})" if flavour & 1 else f"add_argument('--x', type=T{', ' + dtxt if dtxt else ''})"
+    call = {"parse_args": f"p.parse_args({argv!r})", "parse_env": f"p.parse_env({{'APP_X': {text!r}}})",
+            "parse_args+environ": f"os.environ['APP_X'] = {text!r}; p.parse_args({argv!r})", "parse_string": f"p.parse_string({text!r})"}[how]
+    py = (f"# module {modname}:\n{family_source(fam)}\n# p = ArgumentParser(exit_on_error=False{''.join(', %s=%r' % kv for kv in pkw.items())}); "
+          f"p.add_argument('--cfg', action=ActionConfigFile); p.{decl}  (T = {T})\n"
+          + (f"# default config file content: {json.dumps({'x': to_json(items[0]['v'], modname)})}\n" if first_by_channel and chan == "dcf" else "")
+          + f"# cfg = {call}; init = p.instantiate_classes(cfg)")
     try:
         with redirect_stderr(buf), redirect_stdout(buf):
-            cfg = p.parse_args(list(argv))
+            if how == "parse_args":
+                cfg = p.parse_args(list(argv))
+            elif how == "parse_env":
+                cfg = p.parse_env({"APP_X": text})
+            elif how == "parse_string":
+                cfg = p.parse_string(text)
+            else:
+                old_env = os.environ.get("APP_X")
+                os.environ["APP_X"] = text
+                try:
+                    cfg = p.parse_args(list(argv))
+                finally:
+                    if old_env is None:
+                        os.environ.pop("APP_X", None)
+                    else:
+                        os.environ["APP_X"] = old_env
     except ArgumentError as ex:
         return obs, py, str(ex)[:400]
     except Exception as ex:
@@ -313,9 +373,9 @@ _G: dict = {}
 
 
 def _work(job):
-    idx, fi, T, items, flavour = job
+    idx, fi, T, items, flavour, dflt, chan = job
     try:
-        obs, py, err = execute(_G["fams"][fi], T, items, flavour, _G["scratch"])
+        obs, py, err = execute(_G["fams"][fi], T, items, flavour, _G["scratch"], dflt, chan)
         return idx, obs, py, err
     except Exception as ex:
         import traceback
@@ -341,6 +401,8 @@ def flavour_of(idx, salt):
         fl |= 2      # "--x value" instead of "--x=value"
     if (r >> 9) % 4 == 0:
         fl |= 4      # config through a file
+    if (r >> 13) % 2 == 0:
+        fl |= 8      # a default spec as a dict instead of lazy_instance
     return fl
 
 
@@ -524,6 +586,57 @@ def rnd_items(rnd, fam, T):
     return items
 
 
+def rnd_default_case(rnd, fam, T, items):
+    """the argument gets a DEFAULT that is a spec (a concrete subclass of T with some valid init_args) and the first source
+    arrives through a random channel.  After a default config file only sources that do not designate a class follow;
+    through the environment / parse_string there is exactly one source (see design.d/C14.md)."""
+    cls = fam["cls"]
+
+    def issub(c, t):
+        while c:
+            if c == t:
+                return True
+            c = cls[c]["parent"]
+        return False
+
+    def plain(t):
+        return t["k"] in ("int", "str")
+
+    cands = [c for c in cls if issub(c, T) and not cls[c]["abs"] and all(plain(p["t"]) or not p["req"] for p in cls[c]["params"])]
+    if not cands:
+        return NONE, "argv", items
+    c = rnd.choice(cands)
+    ia = {}
+    for p in cls[c]["params"]:
+        if plain(p["t"]) and (p["req"] or rnd.random() < 0.5):
+            ia[p["n"]] = I_(rnd.randint(100, 199)) if p["t"]["k"] == "int" else S_(rnd.choice(["dv", "dw"]))
+    d = {"class_path": {"k": "ref", "m": "M", "n": c}}
+    if ia:
+        d["init_args"] = {"k": "dict", "d": ia}
+    dflt = {"k": "dict", "d": d}
+    chan = rnd.choice(["argv", "dcf", "dcf", "env", "string"])
+
+    def designates(it):
+        v = it["v"]
+        return it["k"] != "dot" and (v["k"] in ("ref", "str") or (v["k"] == "dict" and "class_path" in v["d"]))
+
+    if chan == "argv":
+        return dflt, chan, items
+    # the first source must be a whole value; prefer the short forms without class_path
+    ps = cls[c]["params"]
+    first = None
+    if ps and rnd.random() < 0.7:
+        sub = {p["n"]: (I_(rnd.randint(200, 299)) if p["t"]["k"] == "int" else S_("cv")) for p in ps if plain(p["t"]) and rnd.random() < 0.6}
+        if sub:
+            first = {"k": "whole", "v": {"k": "dict", "d": sub} if rnd.random() < 0.4 else {"k": "dict", "d": {"init_args": {"k": "dict", "d": sub}}}}
+    if first is None:
+        first = next(({"k": "whole", "v": it["v"]} for it in items if it["k"] != "dot"), {"k": "whole", "v": {"k": "ref", "m": "", "n": c}})
+    if chan in ("env", "string"):
+        return dflt, chan, [first]
+    rest = [it for it in items if not designates(it)][:2]
+    return dflt, chan, [first] + rest
+
+
 # ---------------------------------------------------------------- classification
 def shape_key(items) -> str:
     def one(it):
@@ -544,6 +657,7 @@ def main(argv):
         "leaf values are drawn so that their text form is unambiguous (ints for int parameters, plain words for str parameters); leaf conversion is the subject of C02",
         "Ref pins the first Union member that accepts (documented trial order); key order of the normalised spec and the order of independent constructor calls are not compared (LogOK only asks: nested arguments first, one call per spec)",
         "dict_kwargs are not generated inside the elements of a List/Dict-of-class parameter: what a second assignment of a container inherits from the first is not pinned by the documentation",
+        "a default that is a spec: the property allows both readings of whether the signature defaults of the default's class count as configured init_args (Trace_Classes compares with both); after a default config file only sources that do not designate a class are generated, the environment / parse_string channels carry exactly one source",
         "abstract classes are never designated by an explicit path (the property speaks about instantiable classes); the exception class of a rejection beyond ArgumentError is not compared",
         "alpha strips the generated module's name from class_path; the empty init_args / dict_kwargs of a spec are the empty mapping",
     ]
@@ -582,10 +696,10 @@ def main(argv):
             replay_cases = cases
             pick = set(range(len(cases)))
         for c in replay_cases:
-            work.append({"f": 0, "T": c["T"], "items": c["items"], "origin": "replay", "pair": -1, "mc": c})
+            work.append({"f": 0, "T": c["T"], "items": c["items"], "origin": "replay", "pair": -1, "mc": c, "dflt": c["dflt"], "chan": c["chan"]})
         for i, c in enumerate(replay_cases):
             if i in pick and c["explicit"] and c["ref"] == c["code"] and c["alg"]["ok"]:
-                work.append({"f": 0, "T": c["T"], "items": c["explicit"], "origin": "explicit", "pair": i, "mc": None})
+                work.append({"f": 0, "T": c["T"], "items": c["explicit"], "origin": "explicit", "pair": i, "mc": None, "dflt": NONE, "chan": "argv"})
         nfam = 40 if tier == "quick" else 300
         per_fam = 40 if tier == "quick" else 80
         for fi in range(nfam):
@@ -594,8 +708,12 @@ def main(argv):
             decls = [c for c in fam["cls"] if c.startswith(("Base", "Own", "Top", "Abs"))]
             for _ in range(per_fam):
                 T = rnd.choice(decls)
-                work.append({"f": len(fams) - 1, "T": T, "items": rnd_items(rnd, fam, T), "origin": "random", "pair": -1, "mc": None})
-        jobs = [(i, w["f"], w["T"], w["items"], flavour_of(i, common.seed())) for i, w in enumerate(work)]
+                items = rnd_items(rnd, fam, T)
+                dflt, chan = NONE, "argv"
+                if not fam["cls"][T]["abs"] and rnd.random() < 0.3:
+                    dflt, chan, items = rnd_default_case(rnd, fam, T, items)
+                work.append({"f": len(fams) - 1, "T": T, "items": items, "origin": "random", "pair": -1, "mc": None, "dflt": dflt, "chan": chan})
+        jobs = [(i, w["f"], w["T"], w["items"], flavour_of(i, common.seed()), w["dflt"], w["chan"]) for i, w in enumerate(work)]
         res = run_all(jobs, fams, scratch)
         for (i, obs, py, err), w in zip(res, work):
             if "machinery" in obs:
@@ -649,6 +767,7 @@ def main(argv):
         for ci, part in enumerate(chunks):
             pos = {wi: j + 1 for j, wi in enumerate(part)}
             data = {"fams": fams, "cases": [{"f": work[wi]["f"] + 1, "T": work[wi]["T"], "items": work[wi]["items"], "obs": work[wi]["obs"],
+                                             "dflt": work[wi]["dflt"], "chan": work[wi]["chan"],
                                              "pair": pos[work[wi]["pair"]] if work[wi]["pair"] >= 0 else 0} for wi in part]}
             f = os.path.join(scratch, f"trace_{ci}.json")
             with open(f, "w") as fh:
@@ -670,12 +789,12 @@ def main(argv):
             clauses = rejects.get(wi, set())
             obs = w["obs"]
             if obs["ok"] and obs["inst"] == "ok" and not (clauses & {"ref", "ref-log", "ref-pair"}):
-                rep.note_nontrivial(hashlib.sha1(json.dumps([w["f"], w["T"], w["items"]], sort_keys=True).encode()).hexdigest())
+                rep.note_nontrivial(hashlib.sha1(json.dumps([w["f"], w["T"], w["items"], w["dflt"], w["chan"]], sort_keys=True).encode()).hexdigest())
             if "alg" in clauses:
                 n_alg += 1
             if not clauses:
                 continue
-            info = {"family": w["f"], "T": w["T"], "items": w["items"], "observed": obs, "error_text": w["err"], "failed_clauses": sorted(clauses),
+            info = {"family": w["f"], "T": w["T"], "items": w["items"], "default": w["dflt"], "channel": w["chan"], "observed": obs, "error_text": w["err"], "failed_clauses": sorted(clauses),
                     "origin": w["origin"], "flavour": w["flavour"], "python": w["py"]}
             if wi in explain:
                 info["spec_predicts"] = explain[wi]
@@ -687,6 +806,9 @@ def main(argv):
                     verdict = True
                 elif cl == "ref-dev-nokw":
                     rep.violation("dict_kwargs:class-without-var-keyword", "dict_kwargs accepted for a class whose __init__ takes no **kwargs", info)
+                    verdict = True
+                elif cl == "ref-dev-envreq":
+                    rep.violation("default-spec:env:required-only-in-default", "an environment variable that updates a default spec is rejected because a required init_arg is only in the default", info)
                     verdict = True
                 elif cl == "ref-dev-both":
                     rep.violation("dict_kwargs:stale+class-without-var-keyword", "stale dict_kwargs on a class without **kwargs", info)
